@@ -21,6 +21,7 @@ func runC15(ctx *core.Ctx) {
 	ctx.Rule("X2", "no overwrite: the flag constant of the os.OpenFile that creates an entry contains O_CREATE|O_EXCL and not O_TRUNC", 1)
 	ctx.Rule("X3", "exact content: the only write to the created file is the Data of the same entry, and every success path checks both the write error and the close error", 2)
 	ctx.Rule("X4", "txtar-x passes the parsed archive unchanged to Write and exits non-zero when Write fails", 2)
+	ctx.Rule("X6", "txtar-c records what it quoted: wherever a file body is replaced by its quoted form, the archive comment is extended (append onto its previous value) by a line 'unquote <path>' whose path is the same root-relative name that becomes the entry's Name, on every path to the entry being added; txtar-x's reader restores quoted files from exactly these lines", 1)
 	ctx.Rule("X5", "txtar-c: entry names are made relative to the walked root and slash-normalised; a final newline is appended only to non-empty data that lacks one", 2)
 	p := ctx.P
 	w := ctx.Need("X1", "txtar", "Write")
@@ -292,8 +293,92 @@ func runC15(ctx *core.Ctx) {
 	}
 
 	// ---- X5 txtar-c
-	if m := ctx.Need("X5", "cmd/txtar-c", "main$1"); m != nil {
+	storesField := func(f *ssa.Function, typ, field string) []*ssa.Store {
+		var out []*ssa.Store
+		for _, b := range f.Blocks {
+			for _, i := range b.Instrs {
+				st, ok := i.(*ssa.Store)
+				if !ok {
+					continue
+				}
+				fa, ok := st.Addr.(*ssa.FieldAddr)
+				if ok && ssax.FieldOf(fa) != nil && ssax.FieldOf(fa).Name() == field && isNamed(fa.X.Type(), txtarFile, typ) {
+					out = append(out, st)
+				}
+			}
+		}
+		return out
+	}
+	if m := ctx.NeedRole("X5", "cmd/txtar-c", "main$1", "builds the archive's file entries", func(f *ssa.Function) bool { return len(storesField(f, "File", "Name")) > 0 }); m != nil {
 		mg := graph(p, m)
+		// X6: quoted files are recorded
+		var nameSrc ssa.Value
+		for _, st := range storesField(m, "File", "Name") {
+			if c, ok := st.Val.(*ssa.Call); ok && ssax.CalleeName(&c.Call) == "path/filepath.ToSlash" {
+				nameSrc = c.Call.Args[0]
+			} else {
+				nameSrc = st.Val
+			}
+		}
+		quotes := mg.Calls(core.ModPath + "/txtar.Quote")
+		cstores := storesField(m, "Archive", "Comment")
+		for q, qc := range quotes {
+			key := "txtar-c#unquote-record" + itoa(q+1)
+			if len(cstores) == 0 {
+				ctx.Bad("X6", key, qc.Pos(), "a file is stored quoted but nothing is added to the archive comment")
+				continue
+			}
+			why := ""
+			for _, st := range cstores {
+				ap, ok := st.Val.(*ssa.Call)
+				if !ok || !isBuiltinCall(ap, "append") {
+					why = "the comment is replaced, not appended to: an earlier file's unquote line is lost"
+					break
+				}
+				ld, ok := ap.Call.Args[0].(*ssa.UnOp)
+				if !ok || ld.Op != token.MUL || ssax.AccessPath(ld.X) != ssax.AccessPath(st.Addr) {
+					why = "the comment is not extended from its previous value: an earlier file's unquote line is lost"
+					break
+				}
+				isUnquoteLit := func(v ssa.Value) bool {
+					s, ok := ssax.ConstString(v)
+					return ok && strings.HasPrefix(s, "unquote ")
+				}
+				if !ssax.DerivedFrom(ap.Call.Args[1], isUnquoteLit, nil) {
+					why = "the appended text does not start an 'unquote' line"
+					break
+				}
+				if nameSrc == nil || !ssax.DerivedFrom(ap.Call.Args[1], isVal(nameSrc), nil) {
+					why = "the unquote line does not name the entry (the root-relative path that also becomes File.Name)"
+					break
+				}
+			}
+			if why == "" {
+				// every path from a successful Quote to the entry being added records it
+				hit, _ := mg.ReachableWithout(ssax.PointAfter(qc), func(i ssa.Instruction) bool {
+					for _, st := range storesField(m, "File", "Data") {
+						if i == ssa.Instruction(st) {
+							return true
+						}
+					}
+					return false
+				}, func(i ssa.Instruction) bool {
+					for _, st := range cstores {
+						if i == ssa.Instruction(st) {
+							return true
+						}
+					}
+					return false
+				})
+				if hit != nil {
+					why = "a quoted file can be added without an unquote line"
+				}
+			}
+			ctx.Check(why == "", "X6", key, qc.Pos(), "a file stored quoted gets its own 'unquote <entry path>' line appended to the archive comment %s", why)
+		}
+		if len(quotes) == 0 {
+			ctx.Note("X6", "txtar-c#unquote-record", m.Pos(), "txtar-c never quotes")
+		}
 		n := 0
 		mg.Instrs(func(i ssa.Instruction) {
 			st, ok := i.(*ssa.Store)
